@@ -429,6 +429,9 @@ def main(plugin, argv):
     tier = args.tier if args.tier in ("quick", "thorough") else "quick"
     seed = int(os.environ.get("VERIF_SEED", "1") or "1")
     pid = plugin.ID
+    # one run of a given property at a time (case files, replays and evidence are per property); released at process exit
+    _run_lock = Lock("check-" + pid)
+    _run_lock.__enter__()
     ctx = Ctx(pid, tier, seed)
     ev_path = os.path.join(VERIF, "evidence", pid + ".json")
     if os.path.realpath(REPO) != "/repo":
